@@ -249,6 +249,12 @@ func GenRequests(g *tape.Stream, fg *tape.Stream, s *Setup, p *Profile) [][]*Req
 				}
 				fg.End()
 			}
+			if p.Nested {
+				q.Sub = &Req{ID: q.ID, Name: q.Name + "n", PlannedCancel: -1, Progs: make([][]Act, MaxPos), Rets: make([]Ret, MaxPos)}
+				for i := range q.Sub.Rets {
+					q.Sub.Rets[i].Code = 200
+				}
+			}
 			out[t] = append(out[t], q)
 		}
 	}
